@@ -506,3 +506,11 @@ Example C01_compile_correct_f3_instance :
   | _, _ => False
   end.
 Proof. vm_compute. repeat split; reflexivity. Qed.
+
+(* the instances lie in the class the property quantifies over, and the fragments are nested *)
+Example C01_fragment_instances_well_scoped :
+  well_scoped f1_example = true /\ well_scoped f1_example_ok = true /\
+  well_scoped f2_example = true /\ well_scoped f3_example = true /\
+  C01SimDefs2.in_f2 f1_example = true /\ C01SimDefs3.in_f3 f2_example = true /\
+  C01SimDefs.in_f1 f2_example = false /\ C01SimDefs2.in_f2 f3_example = false.
+Proof. vm_compute. repeat split; reflexivity. Qed.
